@@ -126,11 +126,11 @@ func (p *Proof) IsValid(public Public) bool {
 	}
 
 	N := public.N.Big()
-	if big.Jacobi(p.W, N) != -1 {
+	if !arith.IsValidBigModN(N, p.W) {
 		return false
 	}
 
-	if !arith.IsValidBigModN(N, p.W) {
+	if big.Jacobi(p.W, N) != -1 {
 		return false
 	}
 	for _, r := range p.Responses {
@@ -200,6 +200,10 @@ func NewProof(hash *hash.Hash, private Private, public Public, pl *pool.Pool) *P
 func (r *Response) Verify(n, w, y *big.Int) bool {
 	var lhs, rhs big.Int
 
+	if r.X == nil || r.Z == nil {
+		return false
+	}
+
 	// lhs = zⁿ mod n
 	lhs.Exp(r.Z, n, n)
 	if lhs.Cmp(y) != 0 {
@@ -235,11 +239,11 @@ func (p *Proof) Verify(public Public, hash *hash.Hash, pl *pool.Pool) bool {
 		return false
 	}
 
-	if big.Jacobi(p.W, n) != -1 {
+	if !arith.IsValidBigModN(n, p.W) {
 		return false
 	}
 
-	if !arith.IsValidBigModN(n, p.W) {
+	if big.Jacobi(p.W, n) != -1 {
 		return false
 	}
 
